@@ -614,6 +614,22 @@ impl Session {
             Ok(Err(e)) => Outcome::Error(err_info(&e)),
         }
     }
+    /// what a REPL would print for this input: Ok(Some(text of the value)), Ok(None) for no value / unspecified,
+    /// Err(error message); panics are reported as Err("PANIC ...")
+    pub fn eval_display(&mut self, text: &str) -> Result<Option<String>, String> {
+        let it = &mut self.it;
+        match guarded(|| {
+            it.eval(text.chars()).map(|o| match o {
+                Some(Value::Void) | None => None,
+                Some(v) => Some(format!("{}", v)),
+            })
+        }) {
+            Err((site, msg)) => Err(format!("PANIC {}", panic_sig(&site, &msg))),
+            Ok(Ok(v)) => Ok(v),
+            Ok(Err(e)) => Err(format!("{}", e)),
+        }
+    }
+
     /// names and snapshots of the root frame's own bindings
     pub fn root_bindings(&self) -> HashMap<String, SVal> {
         let mut m = HashMap::new();
